@@ -591,13 +591,18 @@ class SegmentWise(base.Recombinator):
         independent_decision_points, global_state=global_state, step=step)
     segment_ends.append(len(independent_decision_points))
 
+    def _decision(parent: pg.DNA, dp: pg.geno.DecisionPoint):
+      # NOTE: the children are built from copies, so the parents are not
+      # adopted into (and modified by) the new DNA trees.
+      return pg.clone(parent[dp], deep=True)
+
     child1, child2 = dict(), dict()
     start = 0
     for i, cp in enumerate(segment_ends):
       segments = independent_decision_points[start:cp]
       for dp in segments:
-        child1[dp] = x[dp] if i % 2 == 0 else y[dp]
-        child2[dp] = y[dp] if i % 2 == 0 else x[dp]
+        child1[dp] = _decision(x if i % 2 == 0 else y, dp)
+        child2[dp] = _decision(y if i % 2 == 0 else x, dp)
       start = cp
     return [pg.DNA.from_dict(child1, dna_spec),
             pg.DNA.from_dict(child2, dna_spec)]
